@@ -243,7 +243,7 @@ def run(ctx):
         reach = ctx.cg.reachable([cl.key], indirect=False)
         bad = sorted(k for k in reach if re.fullmatch(r"state::Lock::(unlock|try_lock|wait_lock|force_owned)", k))
         ctx.ob("R6.7", "%s|no-lock-ops-in-child" % cl.key, not bad, where=cl.span, detail="child closure reaches %s" % bad if bad else "no Lock state change reachable (%d bodies)" % len(reach))
-    lm = prog.one(r"state::LockManager::open")
+    lm = anchors.lock_opener(prog)
     lba = BA.of(lm)
     coe = [i for i in lba.calls(r"helpers::close_on_exec") if S is not None and op_const(lm.blocks[i]["term"]["args"][1]) and op_const(lm.blocks[i]["term"]["args"][1]).get("bool") is True]
     oks = ok_result_blocks(lm)
